@@ -374,7 +374,7 @@ class _JSONPipeCommunicator:
     def write(self, data: str | list[Any] | dict[str, Any]) -> bool:
         class NumpyEncoder(json.JSONEncoder):
             def default(self, obj: Any) -> Any:  # noqa: ANN401
-                if isinstance(obj, np.ndarray):
+                if isinstance(obj, (np.ndarray, np.generic)):
                     return obj.tolist()
                 if isinstance(obj, Path):
                     return str(obj)
